@@ -222,13 +222,15 @@ func (c *Ctx) Report(desc interface{}, fail *Failure) {
 		raw, _ = json.Marshal(fmt.Sprintf("unserialisable descriptor: %v", err))
 	}
 	if fail.Finding != "" && IsKnown(fail.Finding) {
-		k := c.res.Known[fail.Finding]
-		if k.Count == 0 {
-			k.Desc = raw
-			k.Msg = fail.Msg
+		for _, id := range strings.Split(fail.Finding, ",") {
+			k := c.res.Known[id]
+			if k.Count == 0 {
+				k.Desc = raw
+				k.Msg = fail.Msg
+			}
+			k.Count++
+			c.res.Known[id] = k
 		}
-		k.Count++
-		c.res.Known[fail.Finding] = k
 		return
 	}
 	if len(c.res.Violations) < 5 {
@@ -294,15 +296,23 @@ func loadKnown() {
 	})
 }
 
-// IsKnown reports whether the finding id is listed with status "known".
+// IsKnown reports whether the finding id is listed with status "known". A
+// comma-separated list of ids (a case that needs several recorded defects to
+// be explained) is known iff every id is.
 func IsKnown(id string) bool {
 	loadKnown()
-	for _, k := range kfList {
-		if k.ID == id && k.Status == "known" {
-			return true
+	for _, one := range strings.Split(id, ",") {
+		found := false
+		for _, k := range kfList {
+			if k.ID == one && k.Status == "known" {
+				found = true
+			}
+		}
+		if !found {
+			return false
 		}
 	}
-	return false
+	return true
 }
 
 func knownWhat(id string) string {
